@@ -13,14 +13,16 @@ INSTANCE Ledger WITH
   MintAmt <- LAMBDA t : 0, Deviations <- {}
 
 Tr == TLCEval(ndJsonDeserialize("trace.ndjson"))
-VARIABLES l, bad
+VARIABLES l, bad, badok
 Expected(e) == Convert(e.era, e.amt, e.fr, e.fa, e.tr, e.ta)
 Agrees(e) == LET c == Expected(e) IN c.ok = e.ok /\ (c.ok => c.v = e.v)
-Init == l = 1 /\ bad = 0
+Init == l = 1 /\ bad = 0 /\ badok = 0
 Next == /\ l <= Len(Tr)
         /\ l' = l + 1
+        /\ badok' = IF Expected(Tr[l]).ok = Tr[l].ok THEN badok
+                    ELSE badok + 1
         /\ bad' = IF Agrees(Tr[l]) THEN bad
                   ELSE IF bad < 5 /\ PrintT("ISSUE " \o ToJson(<<Tr[l], Expected(Tr[l])>>)) THEN bad + 1 ELSE bad + 1
-Spec == Init /\ [][Next]_<<l, bad>>
-Report == l = Len(Tr) + 1 => PrintT(<<"DONE", Len(Tr), bad>>)
+Spec == Init /\ [][Next]_<<l, bad, badok>>
+Report == l = Len(Tr) + 1 => PrintT(<<"DONE", Len(Tr), bad, badok>>)
 =============================================================================
